@@ -159,7 +159,7 @@ def gen_identity_config(rng, for_sessions=False):
         b = su['benchmarks'][-1]
         name = b if isinstance(b, str) else list(b)[0]
         det = {} if isinstance(b, str) else dict(b[name])
-        det['extra_args'] = rng.choice([6, '6', 2.5, True, 0, '0'])
+        det['extra_args'] = rng.choice([6, '6', 2.5, True, 0, '0', '--mode\tfast', 'trailing  ', 'ünï\tcode'])
         su['benchmarks'][-1] = {name: det}
     if rng.random() < 0.3:   # folded scalar with trailing newline
         su = cfg['benchmark_suites'][rng.choice(sorted(cfg['benchmark_suites']))]
@@ -343,7 +343,8 @@ SAFE = ['ms', 'kb', 'total', 'mem', 'alloc rate', 'x%y', '~a', 'Größe', 'ops/s
         'GC time', 'a  b', 'q"x', '', ' lead', 'trail ', '#c', 'L1 d-cache miss/s']
 HOSTILE = [('tab_in_criterion', 'crit', 'me\tm'), ('cr_in_criterion', 'crit', 'me\rm'), ('tab_in_unit', 'unit', 'ms\top'),
            ('cr_in_unit', 'unit', 'ms\r'), ('tab_in_criterion', 'crit', 'total\tx'), ('cr_in_unit', 'unit', '\rms'),
-           ('separator_in_run_columns', 'cols', 'folded args\n'), ('separator_in_run_columns', 'cols', 'a\tb')]
+           ('newline_in_run_columns', 'cols', 'folded args\n'), ('tab_in_run_columns', 'cols', 'a\tb'),
+           ('tab_in_run_columns', 'cols', '--mode\tfast')]
 
 
 UNREACHABLE = {'cr_in_unit'}
@@ -485,8 +486,10 @@ def classify_line(c):
             return 'cr_in_' + name
         if '\n' in text:
             return 'lf_in_' + name
-    if any(ch in col for col in c['cols'] for ch in '\t\r\n'):
-        return 'separator_in_run_columns'
+    if any(ch in col for col in c['cols'] for ch in '\r\n'):
+        return 'newline_in_run_columns'
+    if any('\t' in col for col in c['cols']):
+        return 'tab_in_run_columns'
     return 'other'
 
 
@@ -528,18 +531,22 @@ def session_check(ck, scens, tag):
         if scen.get('hostile'):
             inp['hostile'], inp['hostile_applied'] = scen['hostile'], True
         klass = scen.get('class') or history_class(scen['cfg'])
-        if klass != 'separator_in_run_columns' and scen.get('hostile'):
+        if scen.get('hostile'):
             klass = 'separator_in_criterion'
         judge_history(ck, inp, probe, outputs, observed, ans, klass)
 
 
+def run_sep_class(run):
+    """a failure is attributed to the run it concerns: only a run whose own identifying columns contain a line
+    break (or a tab) belongs to that class -- other runs of the same history do not"""
+    if any(ch in col for col in run['cols'] for ch in '\n\r'):
+        return 'newline_in_run_columns'
+    if any('\t' in col for col in run['cols']):
+        return 'tab_in_run_columns'
+    return None
+
+
 def history_class(cfg):
-    for su in cfg['benchmark_suites'].values():
-        for b in su['benchmarks']:
-            if isinstance(b, dict):
-                for det in b.values():
-                    if any(ch in str(det.get('extra_args', '')) for ch in '\n\t\r'):
-                        return 'separator_in_run_columns'
     for su in cfg['benchmark_suites'].values():
         if any('~' in str(v) for v in (su.get('env') or {}).values()):
             return 'env_tilde'
@@ -607,23 +614,26 @@ def judge_history(ck, inp, probe, outputs, observed, ans, klass=None):
                 if got[0] != want_m:
                     ck.oracle_fail('progress_restored', sinp, {'run': r['cmd'], 'completed_invocations': got[0],
                                                                'recorded': want_m},
-                                   {'class': klass, 'what': 'invocations'})
+                                   {'class': run_sep_class(r) or klass, 'what': 'invocations'})
                 elif got[1] != want_s:
                     ck.oracle_fail('progress_restored', sinp, {'run': r['cmd'], 'samples': got[1], 'recorded': want_s,
                                                                'files': len(r['files'])},
-                                   {'class': 'run_in_%d_files' % len(r['files']) if len(r['files']) > 1 else klass,
+                                   {'class': ('run_in_%d_files' % len(r['files']) if len(r['files']) > 1 and
+                                              got[1] == want_s * len(r['files']) else run_sep_class(r) or klass),
                                     'what': 'samples'})
         # every measurement recorded by earlier sessions reloads with the same invocation, iteration,
         # criterion, unit and value (6 decimals) -- per criterion, not only the totals
-        if getattr(ob, 'reloaded', None) is not None and klass != 'separator_in_run_columns' and not ob.crash \
-                and ob.status != 'ui_error':
+        if getattr(ob, 'reloaded', None) is not None and not ob.crash and ob.status != 'ui_error':
             want = set()
             for i, invs in recorded.items():
+                if run_sep_class(probe.runs[i]) == 'newline_in_run_columns':
+                    continue      # known at line level (C07-newline-in-run-columns): nothing of such a run reloads
                 for inv in invs:
                     for j, msx in enumerate(outputs[i][inv - 1]):
                         for (crit, unit, v) in msx:
                             want.add((i, inv, j + 1, crit, unit, float(c06.fmt6_independent(v))))
-            got = set((k, a, b, c, u, round(float(v), 6)) for (k, a, b, c, u, v) in ob.reloaded)
+            got = set((k, a, b, c, u, round(float(v), 6)) for (k, a, b, c, u, v) in ob.reloaded
+                      if k is None or run_sep_class(probe.runs[k]) != 'newline_in_run_columns')
             want = set((k, a, b, c, u, round(v, 6)) for (k, a, b, c, u, v) in want)
             if got != want:
                 missing = sorted(want - got, key=str)[:4]
@@ -652,7 +662,7 @@ def judge_history(ck, inp, probe, outputs, observed, ans, klass=None):
             if s[2] in recorded.get(s[1], set()):
                 ck.oracle_fail('recognised', sinp, {'run': probe.runs[s[1]]['cmd'], 'invocation': s[2],
                                                     'already_recorded': sorted(recorded[s[1]])},
-                               {'class': klass, 'level': 'session'})
+                               {'class': run_sep_class(probe.runs[s[1]]) or klass, 'level': 'session'})
                 break
         for n, s in enumerate(starts):
             if s[0] != 'r' or (ob.status == 'aborted' and n == last):
